@@ -57,11 +57,11 @@ PROPS = {
                 state=kinds("CX", "NQ", "XQ", "NH", "XH", "AI", "AB", "RQ"), effects=eff("ev"), errnames=False),
     "C12": dict(profiles=["modules", "lifecycle"], monitors=["counts", "callbacks"],
                 state=kinds("CX", "RQ", "RS"), effects=eff("respcb", "statecb", "ev"), errnames=False),
-    "C13": dict(profiles=["money", "mixed"], monitors=["ownerEarnings", "withdrawLaw", "conservation"],
+    "C13": dict(profiles=["money", "mixed", "genesis"], monitors=["ownerEarnings", "withdrawLaw", "conservation"],
                 state=kinds("EF", "OE", "WD", "A", "OW"), effects=eff("transfer"), errnames=True),
     "C14": dict(profiles=["bindings", "modsvc"], monitors=["minDep", "slashLaw"],
                 state=kinds("B", "PR"), effects=eff("slash"), errnames=True),
-    "C15": dict(profiles=["bindings", "authority"], monitors=["indexes", "stability", "queryExact"],
+    "C15": dict(profiles=["bindings", "authority", "genesis"], monitors=["indexes", "stability", "queryExact"],
                 state=kinds("Q", "D", "B", "OB", "OW", "PO", "PR"), effects=eff(), errnames=True),
     "C16": dict(profiles=["lifecycle", "mixed"], monitors=["requests", "counts", "lifecycle"],
                 state=kinds("CX", "RQ", "RS", "AI", "AB"), effects=eff("ev"), errnames=False),
